@@ -1,7 +1,7 @@
 (* C14 — topic aliases never change which topic a message is delivered on. *)
 From Coq Require Import List NArith Bool.
 Import ListNotations.
-From VMQ Require Import model.Alias proofs.AliasProofs.
+From VMQ Require Import model.Alias proofs.AliasProofs model.Auth proofs.AuthProofs.
 Open Scope N_scope.
 
 (* outbound: for every Topic Alias Maximum and every sequence of topics, each packet resolves at
@@ -13,13 +13,17 @@ Theorem C14_out_resolves : forall max ts s' ps,
 Proof. exact alias_out_resolves. Qed.
 Print Assumptions C14_out_resolves.
 
-(* inbound: an alias-only PUBLISH is routed to the topic last bound to that alias on this
-   connection; alias 0, an alias above the server's maximum, or an unbound alias terminates *)
+(* inbound: an alias-only PUBLISH resolves to the topic last bound to that alias on this connection - by a packet
+   that carried both, whether that packet's message was authorised or refused - and is routed there iff the write ACL
+   allows THAT topic; alias 0, an alias above the server's maximum, or an unbound alias terminates *)
 Theorem C14_in_resolves : forall maxrx ps tbl a au,
   rx_table maxrx [] ps = Some tbl ->
   snd (rx_step maxrx tbl (mkW None (Some a)) au) =
     if (a =? 0) || (maxrx <? a) then RTerminate
-    else match last_bound maxrx a ps with Some t => RRoute t | None => RTerminate end.
+    else match last_bound maxrx a ps with
+         | Some (t, allowed) => if allowed then RRoute t else RDrop
+         | None => RTerminate
+         end.
 Proof. exact alias_in_resolves. Qed.
 Print Assumptions C14_in_resolves.
 
@@ -27,6 +31,14 @@ Theorem C14_in_invalid_terminates : forall maxrx tbl p au a,
   walias p = Some a -> (a = 0 \/ maxrx < a) -> snd (rx_step maxrx tbl p au) = RTerminate.
 Proof. exact alias_in_invalid_terminates. Qed.
 Print Assumptions C14_in_invalid_terminates.
+
+(* inbound, under a write ACL (model/Auth.v alias_pub: connection.go onPublish with its permission check): a packet
+   that carries a topic and an alias binds the alias to that topic whether its message is authorised or refused;
+   what follows under the alias alone is never routed to any other topic *)
+Theorem C14_in_last_bound_under_acl : forall allowed tbl tp a, a <> 0 ->
+  forall t', snd (alias_pub allowed (fst (alias_pub allowed tbl (Some tp) a)) None a) = ARouted t' -> t' = tp.
+Proof. exact alias_last_bound. Qed.
+Print Assumptions C14_in_last_bound_under_acl.
 
 Example C14_nonvacuous :
   let '(_, ps) := send_all (mkAl [] 0 2) [7; 8; 9; 7; 9; 8] in
